@@ -221,7 +221,11 @@ func observeErr(err error) (errs []map[string]any, nyield int, panicked bool) {
 			panicked = true
 		}
 	}()
-	for e := range cfgerrors.All(err) {
+	seq := cfgerrors.All(err)
+	for range seq { // a first, broken-off loop over the same iterator value must not matter
+		break
+	}
+	for e := range seq {
 		nyield++
 		errs = append(errs, describeErr(e))
 	}
@@ -259,7 +263,51 @@ func validateAll(t *tracer, ac absConfig) (accepted bool) {
 	c3 := ac.concrete()
 	a, _ := cors.NewMiddleware(cors.Config{Origins: []string{"https://configured.example"}})
 	emitValidate(t, "reconfA", ac, a.Reconfigure(&c3), false)
+	// ... and on middlewares that currently hold a NEIGHBOUR of the configuration (one group of fields changed towards
+	// validity): the verdict on a configuration must not depend on what the middleware was accepted with before
+	nb := neighbours(ac)
+	seq++
+	done := 0
+	for k := range nb {
+		p := nb[(k+seq)%len(nb)]
+		pm, perr := cors.NewMiddleware(p.cfg.concrete())
+		if perr != nil {
+			continue
+		}
+		c4 := ac.concrete()
+		emitValidate(t, "reconfN:"+p.what, ac, pm.Reconfigure(&c4), false)
+		if done++; done == 3 {
+			break
+		}
+	}
 	return
+}
+
+var seq int
+
+type neighbour struct {
+	what string
+	cfg  absConfig
+}
+
+func neighbours(ac absConfig) []neighbour {
+	var out []neighbour
+	add := func(what string, f func(*absConfig)) {
+		n := ac
+		f(&n)
+		out = append(out, neighbour{what, n})
+	}
+	add("cred", func(n *absConfig) { n.Cred = !n.Cred })
+	add("pna", func(n *absConfig) { n.Pna, n.NoCors = false, false })
+	add("tolInsecure", func(n *absConfig) { n.TolInsecure = !n.TolInsecure })
+	add("tolPSL", func(n *absConfig) { n.TolPSL = !n.TolPSL })
+	add("switches", func(n *absConfig) { n.Cred, n.Pna, n.NoCors, n.TolInsecure, n.TolPSL = false, false, false, true, true })
+	add("methods", func(n *absConfig) { n.Methods = nil })
+	add("reqh", func(n *absConfig) { n.ReqH = nil })
+	add("resph", func(n *absConfig) { n.RespH = nil })
+	add("scalars", func(n *absConfig) { n.MaxAge, n.Status = 0, 0 })
+	add("lists", func(n *absConfig) { n.Methods, n.ReqH, n.RespH, n.MaxAge, n.Status = nil, nil, nil, 0, 0 })
+	return out
 }
 
 func cmdCfgs(args []string) {
